@@ -206,10 +206,16 @@ pub fn parse_opreturn(r: &RunResult) -> Result<Vec<(u64, String, String)>, Strin
 }
 
 pub fn check_opreturn(r: &RunResult, coin: &Coin, range: &[MBlock]) -> Vec<Mismatch> {
-    let mut v = expect_success(r);
+    let v = expect_success(r);
     if !v.is_empty() {
         return v;
     }
+    check_opreturn_lines(r, coin, range)
+}
+
+/// The printed lines alone (whatever the exit status): exactly the model's lines for `range`, in order.
+pub fn check_opreturn_lines(r: &RunResult, coin: &Coin, range: &[MBlock]) -> Vec<Mismatch> {
+    let mut v: Vec<Mismatch> = Vec::new();
     let got = match parse_opreturn(r) {
         Err(e) => return vec![mm("opreturn-unparsable", e)],
         Ok(g) => g,
